@@ -209,7 +209,7 @@ def same_cls(src_cls, variant):
 def execute(line):
     ops = line.split(SEP)[2:]
     clear_caches()
-    objs, exts, keys, states = [], [], [], []
+    objs, exts, keys, lits, states = [], [], [], [], []
     for op in ops:
         f = op.split(":")
         k = f[0]
@@ -217,13 +217,15 @@ def execute(line):
             if k == "new":
                 objs.append(mk(f[1], unwire(f[2])))
             elif k == "str":
-                objs.append(CLASSES[f[1]]("0b" + f[2]))
+                lit = _lit(f[2], f[3] if len(f) > 3 else "b")
+                objs.append(CLASSES[f[1]](lit))
                 if f[2] not in keys:
-                    keys.append(f[2])
+                    keys.append(f[2]); lits.append(lit)
             elif k == "fromstring":
-                objs.append(CLASSES[f[1]].fromstring("0b" + f[2]))
+                lit = _lit(f[2], f[3] if len(f) > 3 else "b")
+                objs.append(CLASSES[f[1]].fromstring(lit))
                 if f[2] not in keys:
-                    keys.append(f[2])
+                    keys.append(f[2]); lits.append(lit)
             elif k == "obj":
                 objs.append(CLASSES[f[1]](objs[int(f[2])]))
             elif k == "bitskw":
@@ -338,7 +340,7 @@ def execute(line):
             # produces applicable operations), so it is itself an observation — report it and stop the history.
             states.append(f"EXC {op} {type(e).__name__}")
             break
-        cache_vals = [wire(Bits("0b" + key)) for key in keys]
+        cache_vals = [wire(Bits(lit)) for lit in lits]
         states.append(",".join(wire(o) for o in objs) + "|" + ",".join(wire(_ext_bits(e)) for e in exts) + "|" + ",".join(cache_vals))
     return "ok " + " ; ".join(states), {"classes": [type(o).__name__ for o in objs]}
 
@@ -352,7 +354,7 @@ def _reference(ops):
         if k in ("new",):
             objs.append(unwire(f[2])); classes.append(f[1])
         elif k in ("str", "fromstring"):
-            objs.append(f[2]); classes.append(f[1])
+            objs.append(unwire(f[2])); classes.append(f[1])
             if f[2] not in keys:
                 keys.append(f[2])
         elif k in ("obj", "bitskw"):
@@ -403,8 +405,34 @@ def _reference(ops):
                     objs[d] = "".join("1" if (p == "1" or q == "1") else "0" for p, q in zip(b, o)) if len(b) == len(o) else b
         elif k == "mutext":
             exts[int(f[1])] = _apply_kind_bits(exts[int(f[1])], f[2])
-        states.append(",".join(wire(o) for o in objs) + "|" + ",".join(wire(e) for e in exts) + "|" + ",".join(wire(x) for x in keys))
+        states.append(",".join(wire(o) for o in objs) + "|" + ",".join(wire(e) for e in exts) + "|" + ",".join(keys))
     return "ok " + " ; ".join(states)
+
+
+def _lit(w, sp):
+    """The string literal spelling the bits w: b '0b…' (default) | h hex when possible | s two comma-separated tokens |
+    p padded with blanks; for the empty value: the token-less strings '' (e), ' ' (w), ' , ' (c)."""
+    b = unwire(w)
+    if not b:
+        return {"e": "", "w": " ", "c": " , "}.get(sp, "")
+    if sp == "h" and len(b) % 4 == 0:
+        return "0x" + "".join("%x" % int(b[i:i + 4], 2) for i in range(0, len(b), 4))
+    if sp == "s" and len(b) >= 2:
+        return "0b" + b[:len(b) // 2] + ", 0b" + b[len(b) // 2:]
+    if sp == "p":
+        return " 0b" + b + " "
+    return "0b" + b
+
+
+def model_line(line):
+    """The model keys the literal cache by the value (spelling is not modelled: one entry per value)."""
+    out = []
+    for op in line.split(SEP):
+        f = op.split(":")
+        if f[0] in ("str", "fromstring") and len(f) > 3:
+            op = ":".join(f[:3])
+        out.append(op)
+    return SEP.join(out)
 
 
 def oracle(line, out, extra):
@@ -448,6 +476,24 @@ def _routes(i, src_cls, bits, rng):
 
 def gen(rng, tier):
     big = tier != "quick"
+    # 0. literals that share one cache entry: token-less strings ('' / ' ' / ' , ') and alternative spellings, with a
+    #    mutable object the FIRST to be built from the literal, grown in place, then other objects from the same literal
+    for sp in ("e", "w", "c"):
+        for ca in CLASS_NAMES:
+            for cb in CLASS_NAMES:
+                for k1 in ("str", "fromstring"):
+                    for kind in ("append1", "insert1", "prepend1", "imul2"):
+                        yield SEP.join(["C04", "hist", f"{k1}:{ca}:-:{sp}", f"mut:0:{kind}", f"str:{cb}:-:{sp}", f"mut:1:append1",
+                                        f"mut:0:append1", f"str:Bits:-:{sp}"])
+                    yield SEP.join(["C04", "hist", f"{k1}:{ca}:-:{sp}", f"str:{cb}:-:{sp}", f"mutobj:0:append:1", f"mutobj:1:iadd:0",
+                                    f"mutobj:0:insert0:0", f"str:BitArray:-:{sp}", f"mut:2:append1", f"str:ConstBitStream:-:{sp}"])
+    for sp in ("h", "s", "p"):
+        for bits in ("10100101", "1100"):
+            for ca in CLASS_NAMES:
+                for cb in CLASS_NAMES:
+                    for kind in (KINDS if big else rng.sample(KINDS, 4)):
+                        yield SEP.join(["C04", "hist", f"str:{ca}:{bits}:{sp}", f"mut:0:{kind}", f"str:{cb}:{bits}:{sp}", f"mut:1:{kind}",
+                                        f"mut:0:{kind}", f"fromstring:{cb}:{bits}:{sp}", f"mut:2:{kind}"])
     contents = ["1010", "0", "11110000", "101100111000"] + ([rand_bits(rng, 17), rand_bits(rng, 64)] if big else [])
     # 1. derive / mutate / observe triples: every route x source kind x class x mutator on either side
     for bits in contents[: (6 if big else 3)]:
@@ -529,7 +575,13 @@ def gen(rng, tier):
                 c = rng.choice(CLASS_NAMES)
                 bits = rng.choice(["1010", "0", "1", "110", "00001111", rand_bits(rng, rng.randint(1, 12))])
                 kind = rng.choice(["new", "str", "str", "fromstring"])
-                ops.append(f"{kind}:{c}:{bits}"); classes.append(c); vals.append(bits)
+                if kind != "new" and rng.random() < 0.3:
+                    if rng.random() < 0.4:
+                        bits = ""
+                    ops.append(f"{kind}:{c}:{wire(bits)}:{rng.choice('ewc') if not bits else rng.choice('hsp')}")
+                else:
+                    ops.append(f"{kind}:{c}:{bits}")
+                classes.append(c); vals.append(bits)
             elif r < 0.55:
                 i = rng.randrange(len(classes))
                 route = rng.choice(_routes(i, classes[i], vals[i], rng))
